@@ -20,10 +20,20 @@ Definition is_ident_start (c : ascii) : bool :=
   (((65 <=? n) && (n <=? 90)) || ((97 <=? n) && (n <=? 122)) || (n =? 95))%N.
 Definition is_ident_continue (c : ascii) : bool :=
   let n := N_of_ascii c in is_ident_start c || ((48 <=? n) && (n <=? 57))%N.
-Definition ident_ok (s : string) : bool :=
+Definition plain_ident_ok (s : string) : bool :=
   match s with
   | EmptyString => false
   | String c r => is_ident_start c && forallb is_ident_continue (list_of_string r)
+  end.
+(** [format_ident!("{}", s)] also accepts a raw identifier [r#name] (quote's mk_ident), except for
+    the path keywords that can never be raw *)
+Definition ident_ok (s : string) : bool :=
+  match s with
+  | String "r" (String "#" rest) =>
+    plain_ident_ok rest &&
+    negb (String.eqb rest "crate" || String.eqb rest "self" || String.eqb rest "super" || String.eqb rest "Self"
+          || String.eqb rest "_")
+  | _ => plain_ident_ok s
   end.
 
 (** a path segment may carry the "generics" hack ([Shared<Foo>]): split it into tokens *)
@@ -300,6 +310,7 @@ Definition build_type (R : registry) (fuel : nat) (p : path) (size alignment : N
   | Some name =>
     if negb (ident_ok name) then Panic "invalid identifier" else
     do fields <- mapM region_field (td_regions td);
+    if negb (ident_ok ("_" +++ name +++ "_size_check")) then Panic "invalid identifier" else
     do acc <- match td_vftable td with
               | Some vt => do a <- vftable_accessor vt; Ok [a]
               | None => Ok []
@@ -341,6 +352,7 @@ Definition build_enum (p : path) (size : N) (v : vis) (ed : enum_def) : outcome 
   | Some name =>
     if negb (ident_ok name) then Panic "invalid identifier" else
     if negb (stype_ok (ed_type ed)) then Err "type does not parse" else
+    if negb (ident_ok ("_" +++ name +++ "_size_check")) then Panic "invalid identifier" else
     do variants <- enum_variants (ed_fields ed) O (ed_default_index ed);
     Ok ([SList (Atom "enum" ::
                  attrs_sexp ([attr_outer [tk "repr"; paren (type_tokens (ed_type ed))]] ++
